@@ -39,8 +39,15 @@ def restrict_rules(chk, P, E):
     chk.rule("R-GUARD", "a NUMA node disappears only with REMOVE_CPULESS (a PU only with REMOVE_MEMLESS); I/O and Misc children dropped only without their ADAPT flag")
     for fn, typ, flag in (("restrict_object_by_cpuset", "HWLOC_OBJ_NUMANODE", "HWLOC_RESTRICT_FLAG_REMOVE_CPULESS"), ("restrict_object_by_nodeset", "HWLOC_OBJ_PU", "HWLOC_RESTRICT_FLAG_REMOVE_MEMLESS")):
         g = P.need_func(fn, "topology.c")
-        txt = " ".join(src(x) for x in g.walk() if x["k"] == "Binary" and x["op"] in ("||",) and typ in src(x) and flag in src(x))
-        chk.inst("R-GUARD", g, "keep-unless-flag", bool(txt), "the removal condition contains `obj->type != %s || flags & %s`" % (typ, flag))
+        tv, fv = g.unit.enum_consts.get(typ), g.unit.enum_consts.get(flag)
+        allbits = 0
+        for k, v in g.unit.enum_consts.items():
+            if k.startswith("HWLOC_RESTRICT_FLAG_"):
+                allbits |= v
+        words = [w for w in range(allbits + 1) if (w & ~allbits) == 0 and not (w & fv)] if tv is not None and fv is not None else []
+        if chk.need(bool(words), "R-GUARD: %s / %s not found" % (typ, flag)):
+            guards.unreachable_under(chk, P, fn, "topology.c", [{"obj->type": tv, "flags": w} for w in words], "unlink_and_free_single_object", "R-GUARD", "keep-unless-flag",
+                                     "with obj->type == %s and %s unset (all %d such flag words) the removal of the object is unreachable" % (typ, flag, len(words)))
         def frees(f2):
             for c in f2.calls(("hwloc_free_object_siblings_and_children",)):
                 yield c, "drop"
